@@ -35,6 +35,22 @@ CHECKS = {
               "written by the real create_guesses must equal the model's product of groups with masks applied, the returned count "
               "must equal the number of lines, and every loaded value must carry its group's probability. Exploration."),
         design='4/C04'),
+    'C08': dict(
+        technique="Hypothesis property-based testing over (ruleset, every cut point) and generated multi-cycle quit/resume histories, driving the real pcfg_guesser.main() in-process with a harness-owned keyboard; multiset/order relations against the uninterrupted run",
+        text=("For generated tie-heavy rulesets the real main() is interrupted by an explicit 'q' noticed right after the k-th pop, for "
+              "every k, the real save file is written and a real --load run resumes: the resumed sequence must be non-increasing, "
+              "nothing above the saved probability, a superset of the uninterrupted remainder, and repeat only pre-terminals tied "
+              "with the saved probability that were emitted before. Histories of up to 5 cycles check that nothing is lost and only "
+              "saved-position ties repeat; a changed UUID must be refused. Exploration; every cut of each generated ruleset is "
+              "enumerated."),
+        design='4/C08'),
+    'C09': dict(
+        technique="Hypothesis property-based testing, metamorphic limit-N == prefix(N) for every N, model-side expansion oracle for the unlimited stream, byte-exact differential against real CLI subprocesses",
+        text=("Generated rulesets (incl. Markov levels) x flags: the real main() runs unlimited and with -n N for every N up to "
+              "total+2; stdout must be exactly the first N lines of the unlimited run, and the unlimited stream must be exactly "
+              "the model-side expansion of the popped pre-terminals (so any extra line on stdout is caught). A CLI part runs "
+              "pcfg_guesser.py as a subprocess (stdin /dev/null or an open pipe) and compares raw stdout bytes. Exploration."),
+        design='4/C09'),
 }
 
 NOT_YET = "check not built yet in this round (design exists in DESIGN.md section 4); not claimed until it runs"
